@@ -16,6 +16,14 @@ def intOps : Ops Int :=
     sk := fun _ _ v => v, skInv := fun _ _ v => v
     rbf := fun _ _ _ => 0, kern := fun _ _ _ => 0 }
 
+def ratOps : Ops Rat :=
+  { one := 1
+    mul := (· * ·)
+    mono := fun l => l.foldl (fun acc (v, p) => acc * v ^ p) 1
+    cos := id, sin := id, atan2 := fun s _ => s
+    sk := fun _ _ v => v, skInv := fun _ _ v => v
+    rbf := fun _ _ _ => 0, kern := fun _ _ _ => 0 }
+
 def sexp (head : String) (args : List String) : String :=
   "(" ++ " ".intercalate (head :: args) ++ ")"
 
